@@ -172,7 +172,13 @@ def run_history(seq):
                     bad({"class": "reading_changed_tree", "reader": "md_constructor"}, "step %d" % step, step=step)
             elif op == "NEW_RF":
                 before = snapshot(top)
-                readers.append(("rf", drf.DigitalRFReader(top), step))
+                # opened through a relative path; the process changes its working directory afterwards
+                cwd_ = os.getcwd()
+                os.chdir(os.path.dirname(top))
+                try:
+                    readers.append(("rf", drf.DigitalRFReader(os.path.basename(top)), step))
+                finally:
+                    os.chdir(cwd_)
                 if snapshot(top) != before:
                     bad({"class": "reading_changed_tree", "reader": "rf_constructor"}, "step %d" % step, step=step)
             # a brand-new reader of each kind after every call, plus every live one
